@@ -116,6 +116,12 @@ class Verifier:
 
     # ---- set-up of the symbolic pre-state ------------------------------------------------------
     def _apply_field_types(self, eng):
+        for name, fields in self.db.stub_classes.items():
+            if self.fe.reg.get(name) is None:
+                ci = sym.ClassInfo(name, "external", {})
+                self.fe.reg.add(ci)
+                for f, texpr in fields.items():
+                    ci.fields[f] = self.fe.parse_type(texpr, None)
         for cls_target, fields in self.db.field_types.items():
             modname, cname = cls_target.split(":")
             ci = self.fe.class_info(modname, cname)
@@ -131,8 +137,25 @@ class Verifier:
                 ci.kind = "external"
                 ci.methods = {}
 
+    def _harness_module(self, h):
+        """namespace of a harness = namespace of the repository module it is declared for"""
+        from .frontend import ModuleInfo
+        base = self.fe.module(h.module)
+        if base is None:
+            raise Unsupported(f"harness module {h.module} not found")
+        mi = ModuleInfo.__new__(ModuleInfo)
+        mi.name, mi.path, mi.text = base.name, base.path, base.text
+        mi.tree = base.tree
+        mi.functions, mi.classes, mi.assigns, mi.ann, mi.imports = base.functions, base.classes, base.assigns, base.ann, base.imports
+        return mi
+
     def initial_state(self, eng: Engine, target: str, c: Contract):
-        mi, fn, owner, chain = self.fe.find(target)
+        if target.startswith("harness:"):
+            h = self.db.harnesses[target.split(":", 1)[1]]
+            mi, fn, owner, chain = self._harness_module(h), h.fn, None, []
+            self.fe.consumed[target] = {"sha256": "", "loc": len(h.fn.body), "file": os.path.relpath(h.file, os.path.dirname(os.path.dirname(os.path.abspath(__file__)))), "lineno": h.fn.lineno, "harness": True}
+        else:
+            mi, fn, owner, chain = self.fe.find(target)
         st = State()
         st.assume(st.heap.next_ref >= 1)
         fr = Frame({}, mi, target)
@@ -181,6 +204,7 @@ class Verifier:
         eng = Engine(self.fe, self.db)
         eng.verifying = target
         eng._verifier = self
+        eng.inline_all = target.startswith("harness:") or bool(c.opts.get("inline_all"))
 
         def callsite(cc, cl, st_, g, node_):
             fake = Clause(cl.expr, tag=f"callee-pre {cc.target.split(':')[1]}:{cl.tag or cl.lineno}", top=False, lineno=cl.lineno, src=cl.src)
